@@ -232,7 +232,8 @@ impl IppValue {
                 for (i, item) in list.iter().enumerate() {
                     buffer.put(item.to_bytes());
                     if i < list.len() - 1 {
-                        buffer.put_u8(self.to_tag());
+                        // additional value: the tag of the value that follows, empty name
+                        buffer.put_u8(list[i + 1].to_tag());
                         buffer.put_u16(0);
                     }
                 }
